@@ -385,7 +385,7 @@ func propC08(w *World, r *Report) {
 	// N7: the raw-frame parsers exempt exactly the border from the zero-pixel (bad frame) test, so a border value
 	// can never reject a frame and thereby change recording boundaries
 	checkParsers(w, r, "N7")
-	checkSettingsImmutable(w, r, "N1", "ThermalMotion", "Config") // edge-pixels as configured
+	checkSettingsImmutable(w, r, "N1", "ThermalMotion:EdgePixels", "Config:Motion") // edge-pixels as configured
 }
 
 type rowRef struct {
@@ -659,7 +659,7 @@ func propC07(w *World, r *Report) {
 	checkRingResetAndOldest(w, r, "K5")
 	checkDetectorResetRings(w, r, d, k, "K5") // "earliest frame SINCE THE RESET": the detector's Reset really empties its rings
 	checkRingMove(w, r, "K5")
-	checkSettingsImmutable(w, r, "K2", "ThermalMotion", "Config") // the thresholds, gap and flags as configured
+	checkSettingsImmutable(w, r, "K2", "ThermalMotion:TempThresh|DeltaThresh|CountThresh|FrameCompareGap|UseOneDiffOnly|WarmerOnly|DynamicThreshold", "Config:Motion") // the thresholds, gap and flags as configured
 }
 
 func (c *ssaConstHelper) unused() {}
